@@ -26,6 +26,9 @@ WITH THE SOFTWARE OR THE USE OR OTHER DEALINGS IN THE SOFTWARE.
 
 #include "CoreSMTSolver.h"
 #include "ResolutionProof.h"
+#ifdef OPENSMT_VERIF_HOOKS
+#include <common/VerifHooks.h>
+#endif
 
 #include <tsolvers/TSolver.h>
 
@@ -181,6 +184,13 @@ CoreSMTSolver::handleSat()
         if (deds[i].lev != decisionLevel()) {
             // Maybe do something someday?
         }
+#ifdef OPENSMT_VERIF_HOOKS
+        if (verif::on() and decisionLevel() == 0 and not logsResolutionProof()) {
+            // root-level theory deduction: fetch its justification (as the proof-logging path below does) so that it is traced
+            vec<Lit> tracedReason;
+            theory_handler.getReason(l, tracedReason);
+        }
+#endif
         CRef deducedReason = CRef_Fake;
         if (decisionLevel() == 0 and logsResolutionProof()) {
             vec<Lit> reasonLits;
@@ -274,6 +284,9 @@ CoreSMTSolver::handleUnsat()
         resolutionProof->newTheoryClause(confl);
     }
     analyze(confl, learnt_clause, backtrack_level);
+#ifdef OPENSMT_VERIF_HOOKS
+    verif::clause("L", learnt_clause);
+#endif
 
     if (!logsResolutionProof()) {
         // Get rid of the temporary lemma
